@@ -44,6 +44,12 @@ CMP_CALLS = {
     "std::cmp::PartialOrd::gt": "Gt", "std::cmp::PartialOrd::ge": "Ge",
 }
 
+OP_CALLS = {
+    "std::ops::Add::add": "Add", "std::ops::Sub::sub": "Sub", "std::ops::Mul::mul": "Mul", "std::ops::Div::div": "Div",
+    "std::ops::Rem::rem": "Rem", "std::ops::BitAnd::bitand": "BitAnd", "std::ops::BitOr::bitor": "BitOr",
+    "std::ops::BitXor::bitxor": "BitXor", "std::ops::Shl::shl": "Shl", "std::ops::Shr::shr": "Shr",
+}
+
 LEN_CALLS = ("core::slice::<impl [T]>::len", "std::vec::Vec::<T, A>::len", "std::collections::VecDeque::<T, A>::len",
              "bitvec::slice::BitSlice::<T, O>::len", "bitvec::vec::BitVec::<T, O>::len")
 
@@ -245,6 +251,10 @@ class ExprBuilder:
             return ("un", "Not", args[0])
         if path in LEN_CALLS and len(args) == 1:
             return ("len", args[0])
+        if path in OP_CALLS and len(args) == 2:
+            return ("bin", OP_CALLS[path], args[0], args[1])
+        if path == "std::ops::Neg::neg" and len(args) == 1:
+            return ("un", "Neg", args[0])
         if path in ("std::ops::Index::index", "std::ops::IndexMut::index_mut") and len(args) == 2:
             a1 = args[1]
             if not (a1[0] == "agg" and "Range" in a1[1]) and not (a1[0] == "sym" and "RangeFull" in a1[1]) \
